@@ -484,6 +484,11 @@ static void run_cc1(int argc, char **argv, char *input, char *output) {
 static void print_tokens(Token *tok) {
   FILE *out = open_file(opt_o ? opt_o : "-");
 
+  // An identifier may begin with U+FEFF; at the very beginning of the
+  // text these bytes would be dropped as a byte order mark.
+  if (!tok->has_space && !strncmp(tok->loc, "\xef\xbb\xbf", 3))
+    fprintf(out, " ");
+
   int line = 1;
   Token *prev = NULL;
   for (; tok->kind != TK_EOF; tok = tok->next) {
